@@ -14,9 +14,9 @@ const pkgConfigCompression = modPrefix + "/config/configcompression"
 
 func init() {
 	register(&Property{
-		ID:  "C16",
-		Run: runC16,
-		Explain: "Static structural necessary conditions of HTTP body compression: (R1) codec pairing, decided for every compression type the configuration accepts: the client's writer factory and the server's decoder table use the streaming API of the same codec package for each type (deflate→zlib alias included); the table has the identity entry; the default enabled list is a subset of the table's keys; a decoder is enabled only under the name it was listed with (constant alias keys only under a test for that very name); (R2) size limit after decompression: the decompressor assigns r.Body = MaxBytesReader(w, newBody, d.maxRequestBodySize) before calling the base handler whenever a decoder produced a body; that field comes from the server's limit after the default was applied; the interceptor for uncompressed bodies wraps unconditionally and is installed for every positive limit; (R3) the base handler is reached only when the decoder lookup/creation succeeded; an unknown encoding yields an error answered with 400; (R4) the client adds Content-Encoding with the configured type exactly on the path on which it compressed, and forwards an already-encoded request untouched; (R5) the compressed body buffer is request-local (freshly allocated in RoundTrip, never taken from a pool or shared variable), since the transport may read it after RoundTrip returned.",
+		ID:         "C16",
+		Run:        runC16,
+		Explain:    "Static structural necessary conditions of HTTP body compression: (R1) codec pairing, decided for every compression type the configuration accepts: the client's writer factory and the server's decoder table use the streaming API of the same codec package for each type (deflate→zlib alias included); the table has the identity entry; the default enabled list is a subset of the table's keys; a decoder is enabled only under the name it was listed with (constant alias keys only under a test for that very name); (R2) size limit after decompression: the decompressor assigns r.Body = MaxBytesReader(w, newBody, d.maxRequestBodySize) before calling the base handler whenever a decoder produced a body; that field comes from the server's limit after the default was applied; the interceptor for uncompressed bodies wraps unconditionally and is installed for every positive limit; (R3) the base handler is reached only when the decoder lookup/creation succeeded; an unknown encoding yields an error answered with 400; (R4) the client adds Content-Encoding with the configured type exactly on the path on which it compressed, and forwards an already-encoded request untouched; (R5) the compressed body buffer is request-local (freshly allocated in RoundTrip, never taken from a pool or shared variable), since the transport may read it after RoundTrip returned.",
 		NotDecided: "That the third-party (de)compressors round-trip every byte string and frame boundary; exact-limit arithmetic inside http.MaxBytesReader.",
 		Assumes:    []string{"compress/gzip, compress/zlib, klauspost zstd, golang/snappy, pierrec/lz4 streaming writers and readers are mutually inverse", "http.MaxBytesReader enforces its limit"},
 		Technique:  "static analysis: switch/map table extraction with exhaustive pairing, dominance gating, value provenance",
@@ -297,7 +297,10 @@ func runC16(c *Ctx) {
 		base := calls(serve, func(ci ssa.CallInstruction) bool {
 			return ci.Common().IsInvoke() && ci.Common().Method.Name() == "ServeHTTP" && isFieldAccess(ci.Common().Value, decT, "base")
 		})
-		nb := calls(serve, func(ci ssa.CallInstruction) bool { cf := staticCalleeFn(ci); return cf != nil && recvNamedOfFn(cf) == decT })
+		nb := calls(serve, func(ci ssa.CallInstruction) bool {
+			cf := staticCalleeFn(ci)
+			return cf != nil && recvNamedOfFn(cf) == decT
+		})
 		if len(mbr) != 1 || len(base) != 1 || len(nb) == 0 {
 			c.Bad("decompressed body is limited before the handler runs", p.Pos(serve.Pos()), "MaxBytesReader / base handler / body reader calls not found")
 		} else {
@@ -416,7 +419,9 @@ func runC16(c *Ctx) {
 			// inside: unconditional wrap before next
 			for _, g := range icpt.AnonFuncs {
 				mb := callsNamed(g, func(f *types.Func) bool { return f.FullName() == "net/http.MaxBytesReader" })
-				nx := calls(g, func(ci ssa.CallInstruction) bool { return ci.Common().IsInvoke() && ci.Common().Method.Name() == "ServeHTTP" })
+				nx := calls(g, func(ci ssa.CallInstruction) bool {
+					return ci.Common().IsInvoke() && ci.Common().Method.Name() == "ServeHTTP"
+				})
 				if len(mb) != 1 || len(nx) != 1 {
 					continue
 				}
@@ -433,7 +438,10 @@ func runC16(c *Ctx) {
 	// ---------- R3
 	c.Rule("R3", "GATE", "the base handler runs only when the decoder lookup/creation succeeded; an unknown encoding produces an error answered with 400", 3)
 	if serve != nil && decT != nil {
-		nb := calls(serve, func(ci ssa.CallInstruction) bool { cf := staticCalleeFn(ci); return cf != nil && recvNamedOfFn(cf) == decT })
+		nb := calls(serve, func(ci ssa.CallInstruction) bool {
+			cf := staticCalleeFn(ci)
+			return cf != nil && recvNamedOfFn(cf) == decT
+		})
 		base := calls(serve, func(ci ssa.CallInstruction) bool {
 			return ci.Common().IsInvoke() && ci.Common().Method.Name() == "ServeHTTP" && isFieldAccess(ci.Common().Value, decT, "base")
 		})
@@ -490,7 +498,10 @@ func runC16(c *Ctx) {
 		c.Anchor("compressRoundTripper.RoundTrip")
 		return
 	}
-	comp := calls(rt, func(ci ssa.CallInstruction) bool { cf := staticCalleeFn(ci); return cf != nil && cf.Name() == "compress" })
+	comp := calls(rt, func(ci ssa.CallInstruction) bool {
+		cf := staticCalleeFn(ci)
+		return cf != nil && cf.Name() == "compress"
+	})
 	adds := calls(rt, func(ci ssa.CallInstruction) bool {
 		f := calleeOf(ci)
 		if f == nil || (f.Name() != "Add" && f.Name() != "Set") || len(ci.Common().Args) < 3 {
@@ -508,7 +519,9 @@ func runC16(c *Ctx) {
 		c.Check(okGate && okType, "Content-Encoding is set iff the client compressed", p.Pos(adds[0].Pos()), "after successful compress, value = configured type", fmt.Sprintf("on the compress-succeeded path=%v, value is the configured type=%v", okGate, okType))
 		// pass-through path forwards the original request
 		okPass := false
-		for _, ci := range calls(rt, func(ci ssa.CallInstruction) bool { return ci.Common().IsInvoke() && ci.Common().Method.Name() == "RoundTrip" }) {
+		for _, ci := range calls(rt, func(ci ssa.CallInstruction) bool {
+			return ci.Common().IsInvoke() && ci.Common().Method.Name() == "RoundTrip"
+		}) {
 			if _, isP := ci.Common().Args[0].(*ssa.Parameter); isP && !canReach(comp[0], ci, nil) {
 				okPass = true
 			}
@@ -530,7 +543,9 @@ func runC16(c *Ctx) {
 		// no Put of the buffer
 		put := false
 		for _, g := range withAnon(rt) {
-			for _, ci := range callsNamed(g, func(f *types.Func) bool { return isMethod(f, "sync", "Pool", "Put") || isMethod(f, "sync", "Pool", "Get") }) {
+			for _, ci := range callsNamed(g, func(f *types.Func) bool {
+				return isMethod(f, "sync", "Pool", "Put") || isMethod(f, "sync", "Pool", "Get")
+			}) {
 				_ = ci
 				put = true
 			}
